@@ -122,6 +122,8 @@ def h_require_grad(vf, node, fn, args):
 def h_from(vf, node, fn, args):
     if fn.get('resolved_local') or (fn.get('local') and fn.get('container') != 'trait'):
         return FALLTHROUGH
+    if (node.get('args') or [{}])[0].get('ty') == 'bool' and node.get('ty') != 'bool':
+        return T.ite(tt(vf, vf.deref(args[0])), T.ONE, T.ZERO)      # f32::from(flag) / i32::from(flag) is `flag as _`
     return vf.deref(args[0])
 
 
@@ -155,6 +157,30 @@ def h_checked_sub(vf, node, fn, args):
 def h_map_err(vf, node, fn, args):
     vf.discipline.append(('map_err', tt(vf, args[0]), node.get('sp'), vf.owner()))
     return args[0]
+
+
+@reg('ALIAS', 'std::result::Result::inspect_err', 'std::result::Result::inspect', 'std::option::Option::inspect')
+def h_inspect(vf, node, fn, args):
+    """r.inspect_err(f) / r.inspect(f): r itself; f sees a shared reference on one of the two paths (its effects are recorded
+    under that path's condition)"""
+    key = callee_key(fn)
+    f = vf.deref(args[1]) if len(args) > 1 else None
+    if isinstance(f, Clos):
+        t = tt(vf, vf.deref(args[0]))
+        if T.is_app(t, 'opt'):
+            cond, payload = t[2][0], t[2][1]
+        elif key.endswith('inspect_err'):
+            cond, payload = T.app('is:Err', t), T.app('payload:Err', t)
+        else:
+            cond, payload = T.lnot(T.app('is:Err', t)) if 'result' in key else T.app('is:Some', t), t
+        vf.branch(cond, lambda: (vf.apply_closure(f, [payload]), T.UNIT)[1], lambda: T.UNIT)
+    return args[0]
+
+
+@reg('CONST', 'rustfft::num_complex::Complex::new', 'num_complex::Complex::new')
+def h_complex_new(vf, node, fn, args):
+    """Complex::new(re, im) is the struct literal Complex { re, im }"""
+    return T.app('adt:rustfft::num_complex::Complex', T.app('f:re', tt(vf, vf.deref(args[0]))), T.app('f:im', tt(vf, vf.deref(args[1]))))
 
 
 @reg('ALIAS', 'alloc::intrinsics::write_box_via_move')
@@ -609,25 +635,37 @@ def min_term(a, b):
         return b
     if b == T.sym('inf'):
         return a
+    if T.is_app(a, 'monus') and a[2][0] == b:
+        return a                # a saturating difference never exceeds its minuend
+    if T.is_app(b, 'monus') and b[2][0] == a:
+        return b
     return T.app('min', *sorted([a, b], key=T.key))
 
 
-@reg('ITER', 'std::iter::Iterator::zip', 'rayon::iter::IndexedParallelIterator::zip')
+@reg('ITER', 'std::iter::Iterator::zip', 'rayon::iter::IndexedParallelIterator::zip', 'std::iter::zip', 'core::iter::zip')
 def h_zip(vf, node, fn, args):
     a = vf.as_seq(args[0], node)
     b = vf.as_seq(args[1], node)
-    return Seq(min_term(a.n, b.n), lambda i: Tup([a.elem(i), b.elem(i)]), 'zip(%s,%s)' % (a.desc, b.desc), src=a.src)
+    n = a.n if a.n == b.n or b.n == T.sym('inf') else b.n if a.n == T.sym('inf') else a.n if known_le(vf, a.n, b.n) else b.n if known_le(vf, b.n, a.n) else min_term(a.n, b.n)
+    return Seq(n, lambda i: Tup([a.elem(i), b.elem(i)]), 'zip(%s,%s)' % (a.desc, b.desc), src=a.src)
+
+
+def unsigned_atom(a):
+    """a symbol (the caller knows its type), a length, or an entry of a shape"""
+    if a[0] == 'sym' or T.is_app(a, 'len'):
+        return True
+    return T.is_app(a, 'index') and (T.is_app(a[2][0], 'shape') or T.is_app(a[2][0], 'dims'))
 
 
 def nonneg_usize_poly(t):
     """a polynomial all of whose coefficients are positive, over atoms that are unsigned quantities (the caller knows the type)"""
     if T.is_num(t):
         return T.numval(t) >= 0
-    if t[0] == 'sym' or T.is_app(t, 'len'):
+    if unsigned_atom(t):
         return True
     if t[0] != 'poly':
         return False
-    return all(c[0] > 0 for m, c in t[1]) and all(a[0] == 'sym' or T.is_app(a, 'len') for m, c in t[1] for a, e in m)
+    return all(c[0] > 0 for m, c in t[1]) and all(unsigned_atom(a) for m, c in t[1] for a, e in m)
 
 
 def umin(a, b):
@@ -637,6 +675,52 @@ def umin(a, b):
     if nonneg_usize_poly(T.sub(a, b)):
         return b
     return min_term(a, b)
+
+
+def loop_var_bounds(vf):
+    """iteration symbols of the counted loops being evaluated, with their trip counts: it_j < n_j"""
+    live = set(vf.loop_stack)
+    return {ls.var: ls.n for ls in vf.loops if ls.uid in live and ls.var is not None and isinstance(ls.n, T.Tm) and ls.n != T.sym('inf')}
+
+
+def known_le(vf, a, b):
+    """a <= b for unsigned quantities, using 0 <= it_j <= n_j - 1 for the live counted loops: b - a is rewritten with each bounded
+    variable either kept (>= 0) or replaced by n_j - 1 - s_j (s_j >= 0), and accepted when some choice leaves visibly non-negative terms"""
+    d = T.sub(b, a)
+    if nonneg_usize_poly(d):
+        return True
+    bounds = [(v, n) for v, n in loop_var_bounds(vf).items() if any(x is v for x in T.subterms(d))]
+    if not bounds or len(bounds) > 3:
+        return False
+    for mask in range(1, 1 << len(bounds)):
+        sub = {}
+        for j, (v, n) in enumerate(bounds):
+            if mask >> j & 1:
+                sub[v] = T.sub(T.sub(n, T.ONE), T.sym('slack:' + T.show(v)))
+        if nonneg_usize_poly(T.subst(d, sub)):
+            return True
+    return False
+
+
+def monus(vf, a, b):
+    """saturating a - b of unsigned quantities, decided where the order is known"""
+    if known_le(vf, b, a):
+        return T.sub(a, b)
+    if known_le(vf, a, b):
+        return T.ZERO
+    return T.app('monus', a, b)
+
+
+@reg('ITER', 'std::iter::Iterator::skip', 'rayon::iter::IndexedParallelIterator::skip')
+def h_skip(vf, node, fn, args):
+    """iter.skip(k): the elements from position k on"""
+    s = vf.as_seq(args[0], node)
+    k = tt(vf, args[1])
+    n = s.n if s.n == T.sym('inf') else monus(vf, s.n, k)
+    out = Seq(n, lambda i: s.elem(T.add(i, k)), 'skip(%s)' % s.desc, src=s.src)
+    if getattr(s, 'stop', None) is not None:
+        out.stop = s.stop
+    return out
 
 
 @reg('ITER', 'std::iter::Iterator::by_ref')
@@ -1138,6 +1222,26 @@ def h_slice_repeat(vf, node, fn, args):
 def h_iter_repeat(vf, node, fn, args):
     x = tt(vf, vf.deref(args[0]))
     return Seq(T.sym('inf'), lambda i: x, 'repeat', src=None)
+
+
+@reg('ITER', 'std::iter::repeat_n', 'core::iter::repeat_n')
+def h_iter_repeat_n(vf, node, fn, args):
+    x = tt(vf, vf.deref(args[0]))
+    return Seq(tt(vf, args[1]), lambda i: x, 'repeat', src=None)
+
+
+@reg('ITER', 'std::iter::repeat_with', 'core::iter::repeat_with')
+def h_iter_repeat_with(vf, node, fn, args):
+    """repeat_with(f): f() per element, applied lazily in order (same as `(0..).map(|_| f())`)"""
+    c = vf.deref(args[0])
+    if isinstance(c, Clos):
+        return Seq(T.sym('inf'), lambda i: vf.apply_closure(c, []), 'repeat_with', src=None)
+    ct = tt(vf, c)
+
+    def elem(i):
+        r = vf.apply_fn_item(ct, [], node)
+        return r if r is not None else T.app('apply', ct)
+    return Seq(T.sym('inf'), elem, 'repeat_with', src=None)
 
 
 # ---------------------------------------------------------------- ndarray shape / lane vocabulary: one canonical spelling
